@@ -18,3 +18,4 @@ def rules(ctx):
     S.key_compare_rules(ctx)
     S.extract_state_rules(ctx)
     S.round4_residue_rules(ctx)
+    S.handover_rules(ctx)
